@@ -247,7 +247,9 @@ package absnfs
 //@ ensures [owner-recorded] {C11} isnil(result1) ==> chowns == old(chowns) + 1 && chownuid == old(attrs.Uid) && chowngid == old(attrs.Gid)
 //@ ensures [owner-or-nothing] {C11} chowns == old(chowns) || (chowns == old(chowns) + 1 && chownuid == old(attrs.Uid) && chowngid == old(attrs.Gid))
 // C07: the operation layer hands the backend nothing but sanitizePath's result
-//@ callassert absfs.FS.Create : [backend-path] {C07} arg1 == sanitized(dir.path, name)
+// (C03 as well: the handler's look-before-create examines path.Join(dir.path, name) - a create of any other name,
+// e.g. a trimmed one, could truncate an object the handler never looked at)
+//@ callassert absfs.FS.Create : [backend-path] {C07, C03} arg1 == sanitized(dir.path, name)
 //@ callassert absfs.FS.Chmod : [backend-path] {C07} arg1 == sanitized(dir.path, name)
 //@ callassert absfs.FS.Remove : [backend-path] {C07} arg1 == sanitized(dir.path, name)
 //@ ensures [ro-refused] old(curPolicy(s).ReadOnly) ==> mutlog == old(mutlog) && !isnil(result1)
